@@ -153,6 +153,20 @@ impl Ref {
         if !sp.policy.is_empty() && self.policies.get(&sp.policy).is_some_and(|(_, sts)| sts.iter().any(|s| s.effect == "deny")) { return None; }
         self.delegs.get(n.wrapping_sub(1)).map(|d| d.delegator.clone())
     }
+    /// length of the chain of parents below Delegation `n` (1 = direct), capped; 0 when the chain is broken or cyclic
+    pub fn chain_depth(&self, n: usize) -> usize {
+        let (mut cur, mut depth) = (n, 0usize);
+        loop {
+            let Some(d) = self.delegs.get(cur.wrapping_sub(1)) else { return 0 };
+            depth += 1;
+            if d.parent.is_empty() { return depth; }
+            if depth > 12 { return 0; }
+            match d.parent.rsplit_once(':').and_then(|x| x.1.parse::<usize>().ok()) { Some(p) => cur = p, None => return 0 }
+        }
+    }
+    pub fn has_forward_parent(&self) -> bool {
+        self.delegs.iter().enumerate().any(|(i, d)| d.parent.rsplit_once(':').and_then(|x| x.1.parse::<usize>().ok()).is_some_and(|p| p > i))
+    }
     fn in_window(from: u64, until: u64) -> bool {
         (from == 0 || from <= MODEL_NOW) && (until == 0 || until > MODEL_NOW)
     }
@@ -371,7 +385,7 @@ fn gen_delegation_case(r: &mut Rng) -> Vec<String> {
         ops.push(format!("deleg {SPACE} {x} {d} purge,read {} {} {} - 1", b.0, b.1, b.2));
         ndeleg += 1;
     }
-    let mut made: Vec<(usize, &str)> = vec![];
+    let mut made: Vec<(usize, &str, String, String, String, String)> = vec![];
     for _ in 0..(2 + r.usize(5)) {
         let i = r.usize(held.len());
         let (action, own) = held[i].clone();
@@ -385,14 +399,19 @@ fn gen_delegation_case(r: &mut Rng) -> Vec<String> {
         };
         // re-delegations of any depth hang below ANY earlier row (its delegate passes it on); now and then the parent names a
         // row that does not exist yet, so that later rows can close a cycle
+        let mut inherit: Option<(String, String, String, String)> = None;
         let (dor, dee, parent) = if !made.is_empty() && r.chance(2, 5) {
-            let (pid, pdee) = made[r.usize(made.len())];
+            let (pid, pdee, pa, psc, pco, pcs) = made[r.usize(made.len())].clone();
             let parent = if r.chance(1, 8) { format!("kip:delegation:{}", ndeleg + 2) } else { format!("kip:delegation:{pid}") };
+            // mostly inside the parent's own bounds (so that the chain really carries authority), sometimes not
+            if r.chance(2, 3) { inherit = Some((pa, psc, pco, pcs)); }
             (pdee, *r.pick(&[e, f, x]), parent)
         } else { (d, if r.chance(3, 4) { e } else { f }, "-".to_string()) };
-        made.push((ndeleg + 1, dee));
         let acts = if r.chance(1, 4) { format!("{action},{}", held[(i + 1) % held.len()].0) } else { action };
-        ops.push(format!("deleg {SPACE} {dor} {dee} {acts} {sc} {co} {cs} {parent} {}", r.chance(2, 3) as u8));
+        let (acts, sc, co, cs) = inherit.unwrap_or((acts, sc, co, cs));
+        let redeleg = r.chance(3, 4);
+        ops.push(format!("deleg {SPACE} {dor} {dee} {acts} {sc} {co} {cs} {parent} {}", redeleg as u8));
+        made.push((ndeleg + 1, dee, acts, sc, co, cs));
         ndeleg += 1;
     }
     let actions: Vec<String> = held.iter().map(|h| h.0.clone()).collect();
